@@ -523,6 +523,8 @@ class SV:
         return o
 
     def __add__(self, o, sign=1):
+        if isinstance(o, (complex, np.complexfloating)):
+            return toc(self) + (lift(o) if sign == 1 else -lift(o))
         o = self._lift2(o)
         if o is None:
             return NotImplemented
@@ -546,6 +548,8 @@ class SV:
         return lift(o) - self
 
     def __mul__(self, o):
+        if isinstance(o, (complex, np.complexfloating)):
+            return toc(self) * lift(o)        # a Python complex constant does not know SV: promote here
         o2 = self._lift2(o)
         if o2 is None:
             return NotImplemented
